@@ -287,17 +287,61 @@ class ParamComb(py4hw.Logic):
             self.r.put(self.a.get() & self.getParameterValue('HI'))
 
 
+class ParamQuad(py4hw.Logic):
+    """transpiled combinational block with four parameters"""
+
+    def __init__(self, parent, name, a, r, p0, p1, p2, p3):
+        super().__init__(parent, name)
+        self.a = self.addIn('a', a)
+        self.r = self.addOut('r', r)
+        self.addParameter('P0', p0)
+        self.addParameter('P1', p1)
+        self.addParameter('P2', p2)
+        self.addParameter('P3', p3)
+
+    def propagate(self):
+        if (self.a.get() < self.getParameterValue('P0')):
+            self.r.put(self.getParameterValue('P1') + self.getParameterValue('P2'))
+        else:
+            self.r.put(self.a.get() ^ self.getParameterValue('P3'))
+
+
+class ParamTriSeq(py4hw.Logic):
+    """transpiled clocked block with three parameters, shared module name"""
+
+    def __init__(self, parent, name, a, load, r, lo, step, hi):
+        super().__init__(parent, name)
+        self.a = self.addIn('a', a)
+        self.load = self.addIn('load', load)
+        self.r = self.addOut('r', r)
+        self.addParameter('LO', lo)
+        self.addParameter('STEP', step)
+        self.addParameter('HI', hi)
+
+    def structureName(self):
+        return 'ParamTriSeq_{}'.format(self.r.getWidth())
+
+    def clock(self):
+        if (self.load.get()):
+            self.r.prepare(self.a.get() + self.getParameterValue('STEP'))
+        elif (self.a.get() > self.getParameterValue('HI')):
+            self.r.prepare(self.getParameterValue('LO'))
+
+
 class ParamMid(py4hw.Logic):
     """structural block with its own parameter `pname` (value: literal or a Parameter of ITS parent) that it hands to
     its children: forwarded under the child's name INIT (same or different from pname), as a literal, to a reserved-word
     parameter, to two parameters of a combinational child, and to an inlined ShiftLeftConstant"""
 
-    def __init__(self, parent, name, a, load, r, value, pname, modes, child_kw=False):
+    def __init__(self, parent, name, a, load, r, value, pname, modes, child_kw=False, extra=0):
         super().__init__(parent, name)
         self.addIn('a', a)
         self.addIn('load', load)
         self.addOut('r', r)
         self.addParameter(pname, value)
+        for j in range(extra):                      # a structural module with 2 .. 4 parameters of its own
+            self.addParameter('X{}'.format(j), 10 + j)
+        xs = [self.getParameter('X{}'.format(j)) for j in range(extra)]
         w = r.getWidth()
         cur = a
         for k, mode in enumerate(modes):
@@ -305,6 +349,10 @@ class ParamMid(py4hw.Logic):
             v = self.getParameter(pname) if mode in ('forward', 'comb', 'shift') else 3 + k
             if mode == 'comb':
                 ParamComb(self, 'c{}'.format(k), cur, nxt, v, 5)
+            elif mode == 'quad':                    # four parameters: forwarded own parameter, forwarded extras, literals
+                ParamQuad(self, 'q{}'.format(k), cur, nxt, self.getParameter(pname), xs[0] if extra > 0 else 2, xs[1] if extra > 1 else 4, 6 + k)
+            elif mode == 'tri':
+                ParamTriSeq(self, 'y{}'.format(k), cur, load, nxt, self.getParameter(pname), xs[-1] if extra > 0 else 1, 200)
             elif mode == 'shift':
                 py4hw.ShiftLeftConstant(self, 's{}'.format(k), cur, v, nxt)
             elif child_kw:
@@ -317,22 +365,45 @@ class ParamMid(py4hw.Logic):
 class ParamOuter(py4hw.Logic):
     """two-level chain: OUTER parameter -> ParamMid parameter -> child parameter"""
 
-    def __init__(self, parent, name, a, load, r, value, outer, pname, modes, forward=True):
+    def __init__(self, parent, name, a, load, r, value, outer, pname, modes, forward=True, extra=0):
         super().__init__(parent, name)
         self.addIn('a', a)
         self.addIn('load', load)
         self.addOut('r', r)
         self.addParameter(outer, value)
+        for j in range(extra):
+            self.addParameter('Y{}'.format(j), 20 + j)
         t = self.wire('m', r.getWidth())
-        ParamMid(self, 'mid0', a, load, t, self.getParameter(outer) if forward else 9, pname, modes)
-        ParamMid(self, 'mid1', t, load, r, self.getParameter(outer), pname, list(reversed(modes)))
+        ParamMid(self, 'mid0', a, load, t, self.getParameter(outer) if forward else 9, pname, modes, False, extra)
+        ParamMid(self, 'mid1', t, load, r, self.getParameter('Y0') if extra > 0 else self.getParameter(outer), pname, list(reversed(modes)),
+                 False, max(0, extra - 1))
 
 
-def build_param(w=8, pname='INIT', modes=('forward', 'literal'), levels=1, outer='BASE', child_kw=False, forward=True):
+class ParamDeep(py4hw.Logic):
+    """chain of `levels` structural blocks, each with 1 + extra parameters, forwarding one of them to the next level"""
+
+    def __init__(self, parent, name, a, load, r, levels, pname, modes, extra, value=1):
+        super().__init__(parent, name)
+        self.addIn('a', a)
+        self.addIn('load', load)
+        self.addOut('r', r)
+        self.addParameter('D{}'.format(levels), value)
+        for j in range(extra):
+            self.addParameter('E{}_{}'.format(levels, j), 30 + j)
+        fwd = self.getParameter('E{}_0'.format(levels)) if extra > 0 and levels % 2 == 0 else self.getParameter('D{}'.format(levels))
+        if levels > 2:
+            ParamDeep(self, 'deep', a, load, r, levels - 1, pname, modes, extra, fwd)
+        else:
+            ParamMid(self, 'mid', a, load, r, fwd, pname, modes, False, extra)
+
+
+def build_param(w=8, pname='INIT', modes=('forward', 'literal'), levels=1, outer='BASE', child_kw=False, forward=True, extra=0):
     hw = py4hw.HWSystem()
     a, load, r = hw.wire('a', w), hw.wire('load'), hw.wire('r', w)
     if levels == 1:
-        dut = ParamMid(hw, 'test', a, load, r, 1, pname, list(modes), child_kw)
+        dut = ParamMid(hw, 'test', a, load, r, 1, pname, list(modes), child_kw, extra)
+    elif levels == 2:
+        dut = ParamOuter(hw, 'test', a, load, r, 1, outer, pname, list(modes), forward, extra)
     else:
-        dut = ParamOuter(hw, 'test', a, load, r, 1, outer, pname, list(modes), forward)
+        dut = ParamDeep(hw, 'test', a, load, r, levels, pname, list(modes), extra)
     return hw, dut
